@@ -9,11 +9,19 @@ rows = []
 for tag in tags:
     vj = os.path.join(V, "seeded", tag, "verify.json")
     base = None
+    checks = None
+    note = ""
     try:
-        base = json.load(open(vj)).get("repo_base")
+        vjd = json.load(open(vj))
+        base = vjd.get("repo_base")
+        if len(vjd.get("checks", {})) > 1 or list(vjd.get("checks", {}).keys()) not in ([tag[:3]], []):
+            checks = ",".join(vjd["checks"].keys())
+        note = vjd.get("note", "")
     except Exception:
         pass
     def run(extra):
+        if checks:
+            extra = extra + ["--check", checks]
         r = subprocess.run([sys.executable, os.path.join(V, "tools", "seedverify.py"), tag] + extra, stdout=subprocess.PIPE, stderr=subprocess.STDOUT, text=True)
         return r.stdout
     out = run([])
@@ -22,9 +30,16 @@ for tag in tags:
         out = run(["--base", base])
         used = base
     verdict = "?"
+    per = []
     for l in out.splitlines():
         if " on %s: " % tag in l:
-            verdict = l.split(": ")[1].split(" ")[0]
+            per.append(l.split(" on ")[0].strip() + ":" + l.split(": ")[1].split(" ")[0])
+    if per:
+        verdict = "CAUGHT" if any(x.endswith(":CAUGHT") for x in per) else per[0].split(":")[1]
+        if len(per) > 1:
+            verdict += " (" + " ".join(per) + ")"
+    if note:
+        verdict += " - " + note
     conf = "CONFIRMED" if ("CONFIRMED " + tag) in out and "NOT-CONFIRMED" not in out else "NOT-CONFIRMED"
     what = ""
     try:
